@@ -201,7 +201,9 @@ func (s *sender) recvAck(ackNo uint32) (uint32, error) {
 		windowOpen = true
 	}
 
-	for s.ackNo < newAckNo {
+	// An acknowledgement can only cover frames that were actually sent; ignore
+	// any excess instead of indexing past the retained frames.
+	for s.ackNo < newAckNo && len(s.frames) > 0 {
 		s.onSuccess(ackNo)
 		s.ackNo++
 		s.frames = s.frames[1:]
